@@ -124,6 +124,18 @@ def fam_ctor(ctx, rng):
     # from_dict / from_array keep the contract
     check_face(ctx, Face3D.from_dict(face.to_dict()), 'from_dict:%s' % ('holes' if hs else 'plain'), desc, X.fpt(frame[2]))
     check_face(ctx, Face3D.from_array(face.to_array()), 'from_array:%s' % ('holes' if hs else 'plain'), desc, X.fpt(frame[2]))
+    # a dictionary written by hand / by another tool: the given vertex order with a plane entry that agrees or opposes it
+    for pm in ('same', 'opposite'):
+        nn = frame[2] if pm == 'same' else tuple(-c for c in frame[2])
+        d = {'type': 'Face3D', 'boundary': [list(p) for p in b3], 'plane': Plane(V3(nn), P3(G.embed(frame, o, b[0]))).to_dict()}
+        if h3:
+            d['holes'] = [[list(p) for p in h] for h in h3]
+        try:
+            fd = Face3D.from_dict(d)
+        except Exception as e:
+            ctx.violation('from_dict:user_plane:%s:raises' % pm, '%r' % (e,), desc); continue
+        ctx.count('from_dict.user_plane', key=(pm, len(hs), rev), sample=dict(desc, dict_plane=pm))
+        check_face(ctx, fd, 'from_dict:user_plane:%s:%s' % (pm, 'holes' if hs else 'plain'), dict(desc, dict_plane=pm), X.fpt(frame[2]))
 
 
 def fam_factories(ctx, rng):
